@@ -312,6 +312,8 @@ func runC11(r *vf.Run) {
 	c11Lifetimes(r)
 	c11TypedIntegers(r)
 	c11Lookalikes(r)
+	c11ManyPlaceholders(r)
+	c11Cancelled(r)
 	racePass(r)
 	r.Floor("Prepare and direct path both used", r.Covered("paths") == 2)
 	r.Floor("too-few, exact and too-many argument lists all seen", r.Covered("argument_counts") == 3)
